@@ -62,9 +62,6 @@ func alphabet(quick bool) []refcodec.Msg {
 			}
 			for _, g := range fids {
 				for _, n2 := range names {
-					if quick && g != f && n != n2 {
-						continue
-					}
 					a = append(a, rawpeer.Trenameat(0, f, n, g, n2))
 				}
 				if f != 1 && g != f {
